@@ -189,10 +189,38 @@ Proof.
 Qed.
 Theorem esc_text_mustache inside rest fuel :
   no_close (inside ++ [x7d]) = true ->
-  esc_text (S fuel) (x7b :: x7b :: inside ++ x7d :: x7d :: rest) = [x7b; x7b] ++ inside ++ [x7d; x7d] ++ esc_text fuel rest.
+  esc_text (S fuel) (x7b :: x7b :: inside ++ x7d :: x7d :: rest) =
+  esc_must ([x7b; x7b] ++ inside ++ [x7d; x7d]) ++ esc_text fuel rest.
 Proof.
   intro Hn. cbn [esc_text]. rewrite !beq_refl. cbn [andb].
   rewrite (find_close_hit inside Hn [] rest). reflexivity.
+Qed.
+(* an expression in which no "<" is followed by a letter, "/", "!" or "?" is copied byte for byte *)
+Fixpoint no_tag_open (s : bytes) : bool :=
+  match s with a :: r => match r with b :: _ => negb (beq a x3c && tag_start b) && no_tag_open r | [] => true end | [] => true end.
+Lemma esc_must_id s : no_tag_open s = true -> esc_must s = s.
+Proof.
+  induction s as [|a r IH]; [reflexivity|]. cbn [no_tag_open esc_must]. destruct r as [|b r']; [reflexivity|].
+  intro H. apply andb_true_iff in H. destruct H as [H1 H2]. apply negb_true_iff in H1. rewrite H1. f_equal. now apply IH.
+Qed.
+Corollary esc_text_mustache_kept inside rest fuel :
+  no_close (inside ++ [x7d]) = true -> no_tag_open ([x7b; x7b] ++ inside ++ [x7d; x7d]) = true ->
+  esc_text (S fuel) (x7b :: x7b :: inside ++ x7d :: x7d :: rest) = [x7b; x7b] ++ inside ++ [x7d; x7d] ++ esc_text fuel rest.
+Proof. intros Hn Ht. rewrite esc_text_mustache by assumption. rewrite (esc_must_id _ Ht). now rewrite <- !app_assoc. Qed.
+(* and whatever the expression holds, the copy contains no "<" that opens a tag *)
+Lemma esc_must_inert s : no_tag_open (esc_must s) = true.
+Proof.
+  induction s as [|a r IH]; [reflexivity|]. cbn [esc_must]. destruct r as [|b r']; [reflexivity|].
+  destruct (beq a x3c && tag_start b) eqn:E.
+  - change (bs "&lt;" ++ esc_must (b :: r')) with (x26 :: x6c :: x74 :: x3b :: esc_must (b :: r')).
+    cbn [no_tag_open]. rewrite (beq_false x26 x3c), (beq_false x6c x3c), (beq_false x74 x3c) by discriminate. cbn [andb negb].
+    destruct (esc_must (b :: r')) as [|c q] eqn:Eq; [reflexivity|]. rewrite (beq_false x3b x3c) by discriminate. exact IH.
+  - cbn [no_tag_open]. destruct (esc_must (b :: r')) as [|c q] eqn:Eq; [reflexivity|].
+    assert (Hc : c = b \/ c = x26).
+    { cbn [esc_must] in Eq. destruct r' as [|b2 r2]; [injection Eq as <- _; now left|].
+      destruct (beq b x3c && tag_start b2); [injection Eq as <- _; now right|injection Eq as <- _; now left]. }
+    destruct Hc as [->| ->]; [rewrite E|]; cbn [negb andb]; [exact IH|].
+    apply andb_true_iff. split; [|exact IH]. apply negb_true_iff. apply andb_false_iff. right. reflexivity.
 Qed.
 
 (* ---------- layout: whitespace between blocks is insignificant ---------- *)
